@@ -40,9 +40,11 @@ RS(i) == CASE i = 1 -> << Rule("develop", "beta", 1, "commit"), Rule("release/*"
            \* the catch-all first
            [] i = 4 -> << Rule("*", "beta", NONE, "tag"), Rule("develop", "rc", 2, "commit") >>
 V(e, ma, mi, pa, l, n, po, d) == [epoch |-> e, major |-> ma, minor |-> mi, patch |-> pa, pre |-> [l |-> l, n |-> n], post |-> po, dev |-> d]
+\* (a pre-release tag with post 0 - set, but zero - is a shape flow itself produces for a dirty tree at a final tag)
 Tags == IF Big THEN { V(NONE, 1, 0, 0, "none", NONE, NONE, NONE), V(NONE, 0, 0, 9, "none", NONE, NONE, NONE),
-                      V(NONE, 2, 3, 4, "rc", 1, 2, NONE), V(NONE, 1, 0, 0, "alpha", 5, NONE, NONE), V(1, 1, 0, 0, "none", NONE, NONE, NONE) }
-        ELSE { V(NONE, 1, 0, 0, "none", NONE, NONE, NONE), V(NONE, 2, 3, 4, "rc", 1, 2, NONE), V(1, 0, 0, 9, "none", NONE, NONE, NONE) }
+                      V(NONE, 2, 3, 4, "rc", 1, 2, NONE), V(NONE, 1, 0, 0, "alpha", 5, NONE, NONE), V(1, 1, 0, 0, "none", NONE, NONE, NONE),
+                      V(NONE, 1, 2, 4, "alpha", 15096, 0, NONE) }
+        ELSE { V(NONE, 1, 0, 0, "none", NONE, NONE, NONE), V(NONE, 2, 3, 4, "rc", 1, 0, NONE), V(1, 0, 0, 9, "none", NONE, NONE, NONE) }
 DirtyChoices == { <<FALSE, FALSE, FALSE>>, <<TRUE, FALSE, FALSE>>, <<FALSE, TRUE, FALSE>>, <<FALSE, FALSE, TRUE>> }
 \* inputs are chosen in two steps (tag and branch first) so that TLC's workers share the rest
 Seeds ==
@@ -108,6 +110,21 @@ Monotonic ==
      LET g == [f EXCEPT !.distance = @ + 1] IN
        SvLess(SemVerOf(f), SemVerOf(g)) /\ PepLess(PepOf(f), PepOf(g))
 \* a clean checkout at a pre-release tag of the shape flow produces gives the tag back
+\* C03, last clause: a clean checkout at a pre-release tag of the shape flow produces (label.N.post.P)
+\* yields that tag unchanged - under every preset that prints a post component
+ShowsPost == {"", "-no-context", "-context", "-base-prerelease-post", "-base-prerelease-post-dev",
+              "-base-prerelease-post-context", "-base-prerelease-post-dev-context"}
+FlowShape(tg) == tg.pre.l # "none" /\ tg.pre.n # NONE /\ tg.post # NONE /\ tg.dev = NONE
+\* the tag itself as text: every component it carries is printed (fixed preset base-prerelease-post-dev)
+FullSchema == R!PresetSchema("standard", "-base-prerelease-post-dev", 0, 0, FALSE, FALSE)
+FullSv(vv)  == R!RenderSemVer(FullSchema, BareSt(vv))
+FullPep(vv) == R!RenderPep440(FullSchema, BareSt(vv))
+PreTagExact ==
+  (f.filled /\ ~Res.err /\ FlowShape(f.tag) /\ f.post = NONE /\ ~IsActive(f) /\ f.suffix \in ShowsPost) =>
+     /\ SO!SvCmp(SO!Parse(SemVerOf(f)), SO!Parse(FullSv(f.tag))) = 0
+     /\ PO!PepCmp(NoLocal(PO!Greedy(PepOf(f))), PO!Greedy(FullPep(f.tag))) = 0
+     /\ f.suffix \in {"", "-no-context", "-base-prerelease-post", "-base-prerelease-post-dev"}
+           => (SemVerOf(f) = FullSv(f.tag) /\ PepOf(f) = FullPep(f.tag))
 CleanTagUnchanged == f.filled => ((~Res.err /\ ~IsActive(f)) => Res.v = AsIs(f))
 
 EmitLine == (Emit /\ f.filled) => PrintT("REPLAY " \o ToJson([ f |-> f, err |-> Res.err, v |-> Res.v, cx |-> Res.cx, r |-> Res.r ]))
